@@ -113,16 +113,22 @@ CLAIMED = {
          "make||make, remove||remove and races with start are not covered). The failed-start defect, the make||stop registration race and stop() aborted by a BaseException-only stop handler (singleton stuck, threads and ports leaked) found here were repaired by fix: commits.",
     technique="inductive invariant over histories with an exception monad + finite LTS reflection for the concurrent clause + observation/trace correspondence under dsched"),
  "C19": dict(category="proof", design_ref="7 (C19)",
-    text="5 generic Coq theorems (all closed): the abstract post analyser of the open/close effect language is sound AND complete for every fault placement; if the boolean conditions "
+    text="8 generic Coq theorems (all closed): the abstract post analyser of the open/close effect language is sound AND complete for every fault placement; if the boolean conditions "
          "ok_open/ok_close hold then for every sequence of open/close/is_open calls and every fault placement is_open() = link held, a failing open leaves (closed, released) or "
          "(open, held), wrong-state open/close raise and change nothing. Per-driver obligations: the open()/close() programs of ALL 62 transport-based driver classes (63 program pairs) "
          "are REGENERATED from the source on every run by a fail-closed MRO-aware ast translator and ok_open/ok_close is decided per class by vm_compute (one lemma each). Classes whose "
          "obligation is refuted are genuine defects, each reproduced on the real class with the fault index the analyser reports. Tie: every class is instantiated with a recording fake "
-         "transport; a fault is injected at every k-th transport call of open() and close(); every observed final state must lie in the model's post set.",
-    note="Trusted: Coq kernel+vm_compute; the ast translator (validated each run by the fault-injection correspondence; base-class shapes re-checked); the fake transport. I/O statements are "
+         "transport; a fault is injected at every k-th transport call of open() and close(); every observed final state must lie in the model's post set. "
+         "Closed-instrument clause: every @rpc_method (1356 methods, 286 helpers) of every transport-based class is REGENERATED into a second effect language (loops, return, break/continue; "
+         "MDev = operation through the transport or a protocol object around it, refused when the link is released; MEff = any other resource; MIo = other code) and closed_safe is decided "
+         "per method by vm_compute; C19_closed_safe: closed_safe p = true implies every execution from (closed, released) ends in that state with nothing touched; C19_method_keeps_state; "
+         "C19_method_outcomes. Tie: every RPC method of every class is called on the closed real instance (arguments synthesised from annotations): no transport call may get through, no "
+         "resource may be created, the observed outcome must be one the method's program allows.",
+    note="Trusted: Coq kernel+vm_compute; the ast translator (validated each run by the fault-injection correspondence and by the closed-method calls; base-class shapes re-checked); the fake transport (real QMI_Transport open/close/_check_is_open logic). "
+         "Assumed and checked where possible: transports refuse I/O when closed (C13's subject; surveyed in the evidence); protocol objects reach the device only through their transport (AST-checked); None-able resource attributes are None when closed (checked on the real class after construction, open/close and every call). I/O statements are "
          "abstracted as 'may raise, do not change flag or link'; single device link per instrument; the tclab retry loop is unrolled 3 times. 21 driver defects were found: 4 repaired by "
          "fix: commits, 17 recorded per class as open known findings.",
-    technique="effect-language translation + sound/complete abstract post analyser, per-class reflection, exhaustive fault-index injection"),
+    technique="effect-language translation + sound/complete abstract post analyser for open/close and a sound outcome/touch analyser (with loops) for RPC methods; per-class and per-method reflection; exhaustive fault-index injection; every RPC method called on the closed real class"),
  "C01": dict(category="proof", design_ref="7 (C01)",
     text="Coq theorems on an executable transition system of the RPC call pipeline of one object (25 labels = atomic regions of rpc.py / messaging.py / context.py: issue, hand-off to the "
          "socket thread, wire, queue, worker pop/exec/reply/reject, pending table, removal, context stop, connection loss; any number of local and remote caller threads and calls; "
@@ -164,18 +170,17 @@ CLAIMED = {
          "serialises runner methods; task scripts terminate (join on a never-ending task blocks by documentation and is exercised only as an expected deadlock).",
     technique="LTS with inductive invariant over label lists; trace acceptance at linearisation points"),
  "C05": dict(category="proof", design_ref="7 (C05)",
-    text="7 generic Coq theorems (all closed) over a model of Python attribute lookup along the MRO (type.__getattribute__ for what inspect.getmembers/make_interface_descriptor "
+    text="9 generic Coq theorems (all closed) over a model of Python attribute lookup along the MRO (type.__getattribute__ for what inspect.getmembers/make_interface_descriptor "
          "advertises, object.__getattribute__ for what _check_and_get_method dispatches), the worker step and proxy construction: a request naming a non-dispatchable name executes "
          "nothing and gets the unknown-RPC reply; along every history every executed call named a marked member; under the boolean side condition class_ok advertised = dispatchable and "
          "the proxy's forwarding methods are exactly the advertised names; a marked lock-control name makes descriptor construction fail and the proxy's own lock/unlock/force_unlock/"
-         "is_locked are never overwritten. Per-class obligations: class_ok = true by vm_compute for ALL 94 QMI_RpcObject subclasses importable from qmi.* (context object, task runner, "
-         "90 instrument classes), the member tables REGENERATED from the live classes on every run (translator: __mro__/__dict__ walk + ast scan of self.x assignments). Tie: 81 shipped "
-         "classes instantiated with stubs and 200 generated classes per run are probed with every name in dir(obj) + advertised + junk names through the real handlers, descriptor "
-         "and proxy (44k requests) and compared with the model; independent oracle.",
-    note="Trusted: Coq kernel+vm_compute; hand model of attribute lookup; the translator (validated each run against the real handlers); 13 classes needing vendor libraries are covered "
-         "statically only; assumptions A1-A3 (values read from properties/slots/instance dict carry no truthy _rpc_method; vars(obj) within the scanned names) are checked each run. "
+         "is_locked are never overwritten; for any list of objects of any classes and any history of requests and lock changes addressed to any of them the verdict on a request depends only on the target object's class table and instance dictionary (C05_history_independent, C05_verdict_depends_on_table_and_dict_only). Per-class obligations: class_ok = true by vm_compute for ALL 94 QMI_RpcObject subclasses importable from qmi.* (context object, task runner, "
+         "90 instrument classes), the member tables REGENERATED from the live classes on every run (translator: __mro__/__dict__ walk + ast scan of self.x assignments). Tie: all 94 shipped "
+         "classes instantiated with stubs (sys.modules stand-ins for the vendor libraries missing here) and 237 generated and fixed classes per run (fixed inheritance shapes: protected and marked names from intermediate bases, grandparents and mix-ins before/after the RPC base) are probed with every name in dir(obj) + advertised + junk names through the real handlers, descriptor "
+         "and proxy (44k requests) and compared with the model; fixed history bucket (14 live objects in one process, every ordered pair of objects P,Q,P and of names n1,n2,n1: 7938 requests, also evaluated by the Coq multi-object system sys_run) and fixed exotic-name bucket (very long names, NUL, dunder names, str subclasses); independent per-request oracle.",
+    note="Trusted: Coq kernel+vm_compute; hand model of attribute lookup; the translator (validated each run against the real handlers); non-string method names are outside the quantifier (observed: refused with TypeError, nothing executed; counted only); assumptions A1-A3 (values read from properties/slots/instance dict carry no truthy _rpc_method; vars(obj) within the scanned names) are checked each run. "
          "The defect found (property getters evaluated before the marker check) was repaired by a fix: commit.",
-    technique="MRO member-table model, generic theorem + per-class reflection, translator, differential probing of the real handlers"),
+    technique="MRO member-table model, generic theorems (incl. history independence over a multi-object system) + per-class reflection, translator, differential probing of the real handlers, descriptor and proxy"),
  "C07": dict(category="proof", design_ref="7 (C07)",
     text="16 Coq theorems (all closed) on an executable transition system of SignalManager (one handler or lock region per step; four tables keyed by the real dot-joined strings and tested "
          "with startswith; delivery log; FIFO channels between two full contexts): for every input sequence of a context (any interleaving of threads at lock-region granularity, any peer "
@@ -186,7 +191,7 @@ CLAIMED = {
          "operations run re-entrantly at every lock-free point of a running publish), compared label by label with the model; real QMI_Context thread schedules under dsched; independent "
          "event-log oracle (each receiver queue = projection of the global publish/subscribe log).",
     note="Trusted: Coq kernel+vm_compute; hand model; H2 harness network and dsched; fresh request ids; atomic lock regions; honest peers. Half of the real-context thread schedules add line-level switch points inside five SignalManager "
-         "methods. Queue overflow (C09) and pickling are outside.",
+         "methods. The H2 stub router keeps the message OBJECTS until the handler invocation is over and transmits them as the socket thread would (re-use or mutation of a message after hand-off is detected); fixed buckets with 2-3 subscriber contexts on one signal and with prefix-named signals; 300 schedules of one publisher context fanning out to 2-3 subscriber contexts. Queue overflow (C09) and pickling are outside.",
     technique="inductive invariants over an executable transition system; H2 message simulation + deterministic scheduler"),
  "C08": dict(category="proof", design_ref="7 (C08)",
     text="14 Coq theorems (all closed). Main theorem C08_quiescent, proved in full for two complete contexts and every finite history (subscribe, unsubscribe incl. re-subscribe while the "
@@ -197,7 +202,7 @@ CLAIMED = {
          "either end; cleanup after object removal and after peer loss at both ends; every blocked subscribe is accounted for through every step and returns once channels are empty. "
          "Tie: as C07 (about 2400 cases per run, probe publications at quiescent points, 900 schedules of blocked subscribers while the peer disconnects / stops / removes the publisher).",
     note="Trusted: as C07. Proof covers two contexts and star topologies at handler granularity; a context subscribed to several publisher contexts at once is covered by correspondence and oracle only; a reconnect is assumed only after both "
-         "ends have closed. One defect below handler granularity (removal notice overtaking the subscribe reply: stale subscription) was found by the thread-level oracle and repaired by a fix: commit.",
+         "ends have closed. Peer loss with several subscriber contexts on one signal is covered by a fixed fan-out bucket. One defect below handler granularity (removal notice overtaking the subscribe reply: stale subscription) was found by the thread-level oracle and repaired by a fix: commit.",
     technique="per-signal protocol invariant over a two-node transition system; H2 simulation + deterministic scheduler"),
  "C17": dict(category="proof", design_ref="7 (C17)",
     text="PARTIAL. 14 Coq theorems (all closed; all inputs / histories / interleavings) on an executable model of the parts of the property that are logic: (a) text-header attribute codec "
